@@ -22,6 +22,78 @@ class AttrDefined(MustAnalysis):
         return out
 
 
+NO_IDENTITY = {"min", "max", "argmin", "argmax", "nanmin", "nanmax", "amin", "amax", "nanargmin", "nanargmax", "ptp"}
+
+
+def check_empty_safe(p, report):
+    regs = [ci for ci in p.classes.values() if "/tests/" not in ci.file and (
+        ci.file.startswith("skactiveml/regressor/") or ci.name in ("SkactivemlRegressor", "ProbabilisticRegressor"))]
+    n8 = 0
+    for ci in sorted(regs, key=lambda c: c.name):
+        for mn, f in sorted(ci.methods.items()):
+            if is_abstract(f):
+                continue
+            # R15.8
+            if mn in ("_validate_data", "fit", "_fit", "partial_fit"):
+                params = set(f.all_param_names()) - {"self"}
+                arrays = {"X", "y", "sample_weight"} & params
+                # names derived from them by plain assignment / masking
+                for _ in range(3):
+                    for n in ast.walk(f.node):
+                        if isinstance(n, ast.Assign) and isinstance(n.value, (ast.Subscript, ast.Name, ast.Call)) \
+                                and names_in(n.value) & arrays:
+                            for t in n.targets:
+                                for x in (t.elts if isinstance(t, (ast.Tuple, ast.List)) else [t]):
+                                    if isinstance(x, ast.Name):
+                                        arrays.add(x.id)
+                from ..astutil import FuncTree
+                tree = FuncTree(f.node)
+                for c in ast.walk(f.node):
+                    if not (isinstance(c, ast.Call) and (c01.callname(c) or "").split(".")[-1] in NO_IDENTITY
+                            and not any(k.arg == "initial" for k in c.keywords)):
+                        continue
+                    opnds = list(c.args[:1]) + ([c.func.value] if isinstance(c.func, ast.Attribute) and not (
+                        isinstance(c.func.value, ast.Name) and c.func.value.id in ("np", "numpy")) else [])
+                    hit = [nm for o in opnds for nm in names_in(o) if nm in arrays]
+                    if not hit:
+                        continue
+                    st = tree.stmt_of(c)
+                    guarded = False
+                    for (s_, owner, field, idx) in tree.ancestors(st):
+                        if isinstance(owner, ast.If) and field == "body":
+                            t = ast.unparse(owner.test).replace(" ", "")
+                            if any(g in t for nm in hit for g in (f"len({nm})>0", f"len({nm})!=0", f"{nm}.size>0", f"len({nm})",
+                                                                   f"{nm}.shape[0]>0")) and "==0" not in t:
+                                guarded = True
+                    # the test of an `if` is itself a use
+                    n8 += 1
+                    report.add("R15.8", f.qual, f"`{norm_stmt(c, 60)}` tolerates an empty training set", f"{f.file}:{c.lineno}", guarded,
+                               detail="under an emptiness guard" if guarded else
+                               f"`{ast.unparse(c)}` raises on an empty `{hit[0]}` (zero-size array to reduction operation): fit on "
+                               f"an empty training set fails instead of falling back to the prior / label-free prediction")
+            # R15.9
+            for t in ast.walk(f.node):
+                if isinstance(t, ast.Try) and any(
+                        isinstance(c, ast.Call) and ("estimator_" in ast.unparse(c.func) and ("fit" in ast.unparse(c.func)))
+                        for b in t.body for c in ast.walk(b)):
+                    broad = any(h.type is None or (isinstance(h.type, ast.Name) and h.type.id in ("Exception", "BaseException"))
+                                or (isinstance(h.type, ast.Tuple) and any(isinstance(e, ast.Name) and e.id in ("Exception", "BaseException")
+                                                                           for e in h.type.elts)) for h in t.handlers)
+                    report.add("R15.9", f.qual, "wrapped fit failure arms the fallback for every exception type", f"{f.file}:{t.lineno}",
+                               broad, detail="except Exception" if broad else
+                               "only " + ", ".join(ast.unparse(h.type) for h in t.handlers if h.type is not None) +
+                               " is caught: an estimator that signals too little data with another exception makes fit fail")
+            # R15.10
+            kw = f.node.args.kwarg
+            if kw is not None and not mn.startswith("__"):
+                used = any(isinstance(x, ast.Name) and x.id == kw.arg for b in f.node.body for x in ast.walk(b))
+                report.add("R15.10", f.qual, f"**{kw.arg} is forwarded", f"{f.file}:{f.node.lineno}", used,
+                           detail="forwarded" if used else
+                           f"the method accepts **{kw.arg} and drops them: a random_state given by the caller never reaches "
+                           f"the sampling function (draws from the global generator / not reproducible)")
+    report.analysed["identity_less_reductions_in_regressor_fits"] = n8
+
+
 def run(p, report, tier):
     report.rule("R15.1", "ProbabilisticRegressor.predict binds the result of exactly one predict_target_distribution(X) "
                 "call and every element of the returned tuple is .mean()/.std()/.entropy() of that binding", floor=2)
@@ -272,6 +344,16 @@ def run(p, report, tier):
         okord = scale.lineno < shift.lineno and ast.unparse(scale.target) == ast.unparse(shift.target)
         report.add("R15.7", smp.qual, "fallback samples: `*= _label_std` before `+= _label_mean`", f"{smp.file}:{shift.lineno}", okord,
                    detail="std * z + mean" if okord else "the shift is applied before the scale: samples follow N(mean * std, std)")
+    # ---------------- R15.8 - R15.10 (round 4)
+    report.rule("R15.8", "nothing on the way of an empty training set raises: in the regressor validators and fit "
+                "functions no identity-less reduction (min / max / argmin / argmax / ptp without initial=) is applied "
+                "to a per-sample array outside an emptiness guard (expected count on today's tree: 0; the self-test "
+                "keeps a positive example)", floor=0)
+    report.rule("R15.9", "the cold-start fallback of the wrapper is armed by ANY failure of the wrapped estimator's "
+                "fit: the try around it has a handler for Exception (or a bare one)", floor=1)
+    report.rule("R15.10", "a public method of a regressor that accepts **kwargs forwards them (sample / sample_y hand "
+                "the caller's random_state to the sampling function)", floor=2)
+    check_empty_safe(p, report)
     report.assumptions += ["finiteness and sign of standard deviations and agreement as numbers are not decided",
                            "scipy.stats frozen distributions implement mean/std/entropy/rvs coherently"]
 
